@@ -72,6 +72,8 @@ impl Journal {
     ///
     /// * `record` - will be serialized into the journal
     pub fn insert_record(&self, soa_serial: u32, record: &Record) -> Result<(), PersistenceError> {
+        #[cfg(hickory_dns_verif)]
+        verif::before_insert();
         assert!(
             self.version == CURRENT_VERSION,
             "schema version mismatch, schema_up() resolves this"
@@ -361,4 +363,24 @@ pub enum PersistenceError {
     /// A request timed out
     #[error("request timed out")]
     Timeout,
+}
+
+/// Verification hook (off by default): a failpoint that stops the process before the N-th
+/// journal row insert, to emulate the server stopping between two row commits.
+#[cfg(hickory_dns_verif)]
+pub mod verif {
+    use std::sync::atomic::{AtomicI64, Ordering};
+
+    static REMAINING: AtomicI64 = AtomicI64::new(i64::MAX);
+
+    /// Abort the process when `n` further inserts have been attempted (the n+1-th never commits).
+    pub fn abort_after_inserts(n: i64) {
+        REMAINING.store(n, Ordering::SeqCst);
+    }
+
+    pub(super) fn before_insert() {
+        if REMAINING.fetch_sub(1, Ordering::SeqCst) <= 0 {
+            std::process::abort();
+        }
+    }
 }
